@@ -445,6 +445,32 @@ def chain_scripts(env: Env, N: int):
             yield s
 
 
+def second_loop_chains(env: Env, N: int):
+    """loop 1 ends (by hit or exhausted), the abstraction stage jumps to the head of a second
+    successor chain of length K around the budget: loop 2 is cut or exhausted"""
+    multi_names = [m for m in env.multi_names if m != "fixes.fix_too_many_blank_lines"]
+    for L in (1, N + 1):
+        for K in (1, N - 1, N, N + 1, N + 2):
+            for top in (True, False):
+                n = L + K + 4
+                s = base_script(n)
+                end1 = min(L, N)
+                f = [min(i + 1, L) for i in range(n)]
+                for i in range(L + 1, L + 1 + K):
+                    f[i] = i + 1
+                f[L + 1 + K] = L + 1 + K
+                s["tables"][multi_names[(L + K) % len(multi_names)]] = f
+                key = "overused_static" if top else "overused_nonstatic"
+                s["tables"][key] = [L + 1 if i == end1 else i for i in range(n)]
+                if not top:
+                    s["input"] = n - 1                      # an indented fragment of state 0
+                    s["valid"][n - 1] = False
+                    s["indent"][n - 1] = 4
+                    s["tables"]["textwrap.dedent"][n - 1] = 0
+                    f[n - 1] = n - 1
+                yield s
+
+
 def random_script(env: Env, rnd: random.Random, N: int):
     n = rnd.choice([2, 3, 3, 5, 5, 6, 8, 8, 12, N + 5])
     s = base_script(n)
@@ -577,7 +603,7 @@ def format_code_correspondence(mods, wd: Path, tier: str, seed: int, part: str =
         exh = [s for i, s in enumerate(exh) if i % k == seed % k]
     res["exhaustive_cases"] = len(exh)
     scripts += exh
-    ch = list(chain_scripts(env, N))
+    ch = list(chain_scripts(env, N)) + list(second_loop_chains(env, N))
     res["chain_cases"] = len(ch)
     scripts += ch
     nrand = {"quick": 400, "thorough": 12000}[tier] if part != "loops" else 200
